@@ -1462,12 +1462,18 @@ def _control_factory(scope):
 """
 
 
-def _r13_scan(m, mod, fn: ast.AST) -> Tuple[int, List[Tuple[str, str, List[str], str, int]]]:
+def _r13_scan(m, mod, fn: ast.AST, by_name: bool = False) -> Tuple[int, List[Tuple[str, str, List[str], str, int]]]:
     """(constructor / factory calls of AST classes seen, [(class, how, omitted fields, source field, line)]) for one
     function of `mod`: a call that builds a node of class K from the fields of a node (`x.f` with f a field of K reaches
     an argument, directly or through local names) while leaving semantic fields of K at their defaults."""
     root = m.ast_root()
     defs: Dict[str, List[ast.AST]] = {}
+
+    def resolve(name: str):
+        res = m.resolve_name(mod, name)
+        if res is None and by_name and name in m.classes:      # the control examples name classes hpl.rewrite may not import
+            return ('class', m.classes[name])
+        return res
 
     def bind(tgt, val):
         for n in ast.walk(tgt):
@@ -1503,17 +1509,18 @@ def _r13_scan(m, mod, fn: ast.AST) -> Tuple[int, List[Tuple[str, str, List[str],
         given = {f.name for f in pos[:len(call.args)]} | {k.arg for k in call.keywords}
         return given
     calls, hits = 0, []
+    tests = [n.test for n in ast.walk(fn) if isinstance(n, (ast.If, ast.IfExp, ast.Assert, ast.While))]
     for c in ast.walk(fn):
         if not isinstance(c, ast.Call):
             continue
         ci, how, given = None, '', None
         if isinstance(c.func, ast.Name):
-            res = m.resolve_name(mod, c.func.id)
+            res = resolve(c.func.id)
             if res and res[0] == 'class' and root in res[1].mro():
                 ci, how = res[1], f'{c.func.id}(...)'
                 given = given_by_call(ci, c)
         elif isinstance(c.func, ast.Attribute) and isinstance(c.func.value, ast.Name):
-            res = m.resolve_name(mod, c.func.value.id)
+            res = resolve(c.func.value.id)
             if res and res[0] == 'class' and root in res[1].mro():
                 fac = res[1].resolve(c.func.attr)
                 if fac is not None and fac.kind == 'classmethod':
@@ -1537,7 +1544,11 @@ def _r13_scan(m, mod, fn: ast.AST) -> Tuple[int, List[Tuple[str, str, List[str],
         src = reach(list(c.args) + [k.value for k in c.keywords])
         carried = sorted(f for f in src if f in names)
         if carried and not any(f in src for f in omitted):
-            hits.append((ci.name, how, omitted, f'{src[carried[0]]}.{carried[0]}', c.lineno))
+            x = src[carried[0]]
+            # a case split on the dropped field of the same node (`if x.terminator is None: ...`) is not read flow-sensitively
+            # here: such a site is left undecided (noted), never reported
+            tested = {n.attr for t in tests for n in ast.walk(t) if isinstance(n, ast.Attribute) and isinstance(n.value, ast.Name) and n.value.id == x}
+            hits.append((ci.name, how, omitted, f'{x}.{carried[0]}', c.lineno, all(f in tested for f in omitted)))
     return calls, hits
 
 
@@ -1547,9 +1558,19 @@ def R13(ctx: Ctx) -> RuleResult:
     # positive / negative control on every run (the expected count on the tree is zero)
     mod = m.module('hpl.rewrite', 'R13')
     ctl = ast.parse(_R13_CONTROL)
-    got = {fn.name: _r13_scan(m, mod, fn)[1] for fn in ctl.body}
-    if not (got['_control_bad'] and got['_control_bad'][0][2] == ['exclude_max', 'exclude_min'] and not got['_control_good'] and got['_control_factory'] and 'terminator' in got['_control_factory'][0][2]):
+    got = {fn.name: _r13_scan(m, mod, fn, by_name=True)[1] for fn in ctl.body}
+    # the controls speak about HplRange's flags and HplScope.after as they are today; where a change of those classes makes a
+    # control meaningless it is skipped (noted), not failed
+    rc, sc = m.classes.get('HplRange'), m.classes.get('HplScope')
+    range_ok = rc is not None and all(rc.field(f) is not None and rc.field(f).has_default for f in ('exclude_min', 'exclude_max')) and all(rc.field(f) is not None for f in ('min_value', 'max_value'))
+    fac = sc.resolve('after') if sc is not None else None
+    scope_ok = fac is not None and fac.kind == 'classmethod' and sc.field('terminator') is not None and sc.field('terminator').has_default and sc.field('activator') is not None
+    if range_ok and not (got['_control_bad'] and got['_control_bad'][0][2] == ['exclude_max', 'exclude_min'] and not got['_control_good']):
         raise AnalysisError('R13', f'control examples are not recognised any more: {got}')
+    if scope_ok and len([x for x in ast.walk(fac.node) if isinstance(x, ast.Return)]) == 1 and not (got['_control_factory'] and 'terminator' in got['_control_factory'][0][2]):
+        r.notes.append('control: HplScope.after is no longer a `return cls(...)` factory the rule reads; factory calls of that shape are not decided')
+    if not range_ok:
+        r.notes.append('control skipped: HplRange no longer has defaulted exclude_min / exclude_max fields')
     total = 0
     nfun = 0
     for mname in ('hpl.rewrite',):
@@ -1558,9 +1579,12 @@ def R13(ctx: Ctx) -> RuleResult:
             nfun += 1
             calls, hits = _r13_scan(m, mod, fi.node)
             total += calls
-            for cname, how, omitted, srcf, line in hits:
+            for cname, how, omitted, srcf, line, split in hits:
+                if split:
+                    r.notes.append(f'undecided: {fi.name}: {how} from {srcf} drops {omitted}, which the function tests elsewhere ({mod.relpath}:{line})')
+                    continue
                 r.fail(f'{fi.name}:{cname}:{",".join(omitted)}', f'{how} is built from {srcf} but leaves {omitted} of {cname} at the default: the rebuilt node loses them (use but(), or pass them on)', f'{mod.relpath}:{line}')
-            if not hits and calls:
+            if not [h for h in hits if not h[5]] and calls:
                 r.ok(f'{fi.name}: {calls} construction site(s), none rebuilds a node with dropped fields')
     r.counts['functions scanned'] = nfun
     r.floor('constructor / factory calls of AST classes in hpl.rewrite', total, 20)
@@ -1568,4 +1592,110 @@ def R13(ctx: Ctx) -> RuleResult:
     return r
 
 
-RULES = {'R13': R13, 'R1': R1, 'R2': R2, 'R3': R3, 'R4': R4, 'R4b': R4b, 'R5': R5, 'R5b': R5b, 'R6': R6}
+# ------------------------------------------------------------------- R14
+_R14_CONTROL = """
+def _control_bad(call):
+    expr = HplLiteral.number(n)
+    for v in variables:
+        expr = HplBinaryOperator.addition(v.cast(NUMBER), expr)
+    return expr
+
+def _control_good(call):
+    expr = HplLiteral.number(n)
+    if n == 0:
+        return expr
+    for v in variables:
+        expr = HplBinaryOperator.multiplication(v.cast(NUMBER), expr)
+    return _simplify(expr)
+"""
+
+
+def _r14_scan(fn: ast.AST, family: set, op_classes=('HplBinaryOperator', 'HplUnaryOperator'), lit_classes=('HplLiteral',)) -> Tuple[int, List[Tuple[str, int]]]:
+    """(returns seen, [(what, line)]): a return whose value (through the definitions that reach it) is an operator node
+    built in this function over a literal made in this function, and that does not go back through the simplifier."""
+    loops = [n for n in ast.walk(fn) if isinstance(n, (ast.For, ast.While))]
+
+    def span(n):
+        return n.lineno, getattr(n, 'end_lineno', n.lineno)
+    defs: Dict[str, List[Tuple[int, ast.AST]]] = {}
+    for n in ast.walk(fn):
+        if isinstance(n, ast.Assign):
+            for tg in n.targets:
+                for x in ast.walk(tg):
+                    if isinstance(x, ast.Name):
+                        defs.setdefault(x.id, []).append((n.lineno, n.value))
+        elif isinstance(n, (ast.AnnAssign, ast.AugAssign)) and n.value is not None and isinstance(n.target, ast.Name):
+            defs.setdefault(n.target.id, []).append((n.lineno, n.value))
+
+    def reaching(name: str, line: int):
+        for dl, val in defs.get(name, []):
+            if dl < line or any(span(lp)[0] <= dl <= span(lp)[1] and span(lp)[0] <= line <= span(lp)[1] for lp in loops):
+                yield dl, val
+
+    def is_ctor(c: ast.Call, classes) -> bool:
+        f = c.func
+        return (isinstance(f, ast.Attribute) and isinstance(f.value, ast.Name) and f.value.id in classes) or (isinstance(f, ast.Name) and f.id in classes)
+
+    def closure_has(e: ast.AST, line: int, pred, seen: set) -> Optional[ast.Call]:
+        for n in ast.walk(e):
+            if isinstance(n, ast.Call) and pred(n, line):
+                return n
+            if isinstance(n, ast.Name) and (n.id, line) not in seen:
+                seen.add((n.id, line))
+                for dl, val in reaching(n.id, line):
+                    hit = closure_has(val, dl if not any(span(lp)[0] <= dl <= span(lp)[1] for lp in loops) else max(dl, line), pred, seen)
+                    if hit is not None:
+                        return hit
+        return None
+
+    def fresh_literal(c: ast.Call, line: int) -> bool:
+        return is_ctor(c, lit_classes)
+
+    def op_over_literal(c: ast.Call, line: int) -> bool:
+        return is_ctor(c, op_classes) and any(closure_has(a, max(line, c.lineno), fresh_literal, set()) is not None for a in list(c.args) + [k.value for k in c.keywords])
+    nret, bad = 0, []
+    for n in ast.walk(fn):
+        if isinstance(n, ast.Return) and n.value is not None:
+            nret += 1
+            v = n.value
+            if isinstance(v, ast.Call) and isinstance(v.func, ast.Name) and v.func.id in family:
+                continue
+            hit = closure_has(v, n.lineno, op_over_literal, set())
+            if hit is not None:
+                bad.append((ast.unparse(hit)[:80], n.lineno))
+    return nret, bad
+
+
+def R14(ctx: Ctx) -> RuleResult:
+    r = RuleResult('R14', 'normal form: an operator node that a simplifier function builds over a literal it has just made (a folded constant, possibly the neutral element) is returned through the simplifier, never as it is - later shape assertions ("due to simplification") and R7 assume that no x + 0 / x * 1 survives')
+    m = ctx.model
+    mod = m.module('hpl.rewrite', 'R14')
+    if '_simplify' not in mod.functions:
+        raise AnalysisError('R14', '_simplify not found in hpl.rewrite (anchor vanished)')
+    # the simplifier family: functions of hpl.rewrite reachable from _simplify by direct calls
+    family, work = {'_simplify'}, ['_simplify']
+    while work:
+        f = mod.functions[work.pop()]
+        for n in ast.walk(f.node):
+            if isinstance(n, ast.Call) and isinstance(n.func, ast.Name) and n.func.id in mod.functions and n.func.id not in family:
+                family.add(n.func.id)
+                work.append(n.func.id)
+    ctl = {f.name: _r14_scan(f, {'_simplify'})[1] for f in ast.parse(_R14_CONTROL).body}
+    if not (len(ctl['_control_bad']) == 1 and not ctl['_control_good']):
+        raise AnalysisError('R14', f'control examples are not recognised any more: {ctl}')
+    nret = 0
+    for name in sorted(family):
+        fi = mod.functions[name]
+        k, bad = _r14_scan(fi.node, family)
+        nret += k
+        for what, line in bad:
+            r.fail(f'{name}:return', f'{name} returns {what}, built over a literal made in the same function, without passing it back through the simplifier: a neutral constant (x + 0, x * 1) survives and breaks the normal form that _obviously_different asserts', f'{mod.relpath}:{line}')
+        if not bad:
+            r.ok(f'{name}: {k} return(s)')
+    r.counts['simplifier family'] = len(family)
+    r.floor('returns of the simplifier family', nret, 100)
+    r.ok('controls: accumulated sum returned as it is reported; early literal return and return through _simplify silent')
+    return r
+
+
+RULES = {'R13': R13, 'R14': R14, 'R1': R1, 'R2': R2, 'R3': R3, 'R4': R4, 'R4b': R4b, 'R5': R5, 'R5b': R5b, 'R6': R6}
